@@ -404,6 +404,18 @@ def r6_primitives(ctx, F):
             full = all(not c.is_('Vec::drain') or (b.val(c.args[1]).kind == 'agg' and 'RangeFull' in str(b.val(c.args[1]).key[1]))
                        for c in drains)
             ok = ok and full and not b.calls_to('Iterator::rev', 'Iterator::skip', 'Iterator::take', 'Iterator::filter')
+    if not ok and not ap:
+        # extend form: self.0.extend(other.0.drain(..)) / extend(mem::take(&mut other.0))
+        ext = b.calls_to('Extend::extend', 'Vec::extend')
+        if len(ext) == 1 and noref(b.val(ext[0].args[0])).kind == 'arg' and noref(b.val(ext[0].args[0])).key == 1:
+            src = noref(b.trace(b.val(ext[0].args[1]), ('IntoIterator::into_iter',)))
+            sc = b.call_at(src.key) if src.kind == 'call' else None
+            if sc is not None and sc.is_('Vec::drain', 'mem::take') and \
+                    noref(b.trace(b.val(sc.args[0]), ('DerefMut::deref_mut',))).key == 2:
+                full = not sc.is_('Vec::drain') or (b.val(sc.args[1]).kind == 'agg' and
+                                                    'RangeFull' in str(b.val(sc.args[1]).key[1]))
+                ok = full and not b.calls_to('Iterator::rev', 'Iterator::skip', 'Iterator::take', 'Iterator::filter',
+                                             'Iterator::step_by', 'Iterator::skip_while', 'Iterator::take_while')
     ctx.check(ok, rule, 'Out::append', b, good='Out::append moves all commands of `other` to the end of self',
               bad='actor::Out::append does not append other\'s commands to self (order/direction wrong)')
     b = F.body('actor::Out::<A>::broadcast')
